@@ -248,9 +248,22 @@ func (s String) Without(value Value) Set {
 			newS[i] = -1
 			s = String{s: newS, offset: s.offset, holes: s.holes + 1}
 		}
+		s = s.trimHoles()
 	}
 	if s.Count() == 0 {
 		return None
+	}
+	return s
+}
+
+// trimHoles drops holes from both ends, so that equal strings have the same
+// representation.
+func (s String) trimHoles() String {
+	for len(s.s) > 0 && s.s[0] < 0 {
+		s = String{s: s.s[1:], offset: s.offset + 1, holes: s.holes - 1}
+	}
+	for len(s.s) > 0 && s.s[len(s.s)-1] < 0 {
+		s = String{s: s.s[:len(s.s)-1], offset: s.offset, holes: s.holes - 1}
 	}
 	return s
 }
